@@ -543,8 +543,8 @@ theorem inv_table {w : World} (hi : Inv w) (tbl' : List SealRec) (ht' : TableOk 
   ⟨ht', fun p hp => cacheOk_mono (hi.2 p hp) hm⟩
 
 theorem initStream_mint_callId {tbl : List SealRec} {inst : Inst} {who : Ident} {method : Bytes} {limit : Nat}
-    {sess : Option Bytes} {callId streamId schema : Bytes} {created : Int} {cd : CursorData} {kd : CallData}
-    (h : (initStream tbl inst who method limit sess callId streamId schema created).mint = some (cd, kd)) :
+    {sess : Option Bytes} {callId streamId schema : Bytes} {created kcreated : Int} {cd : CursorData} {kd : CallData}
+    (h : (initStream tbl inst who method limit sess callId streamId schema created kcreated).mint = some (cd, kd)) :
     cd.callId = kd.callId := by
   unfold initStream at h
   split at h
@@ -730,7 +730,7 @@ minted the C12 example tokens -/
 def exInst8 : Inst := ⟨exKey, 60000, 8, [], false, [], [], true, true, [⟨[109], .exchange, .exchange⟩]⟩
 def exCmds : List Cmd :=
   [.inst "i" exInst8,
-   .init "i" anon [109] 5 none 100000 (some ⟨[65], [83], [], 100, exCursorTok, exCallTok⟩)]
+   .init "i" anon [109] 5 none 100000 (some ⟨[65], [83], [], 100, 100, exCursorTok, exCallTok⟩)]
 def exWorld : World := run World.empty exCmds
 def exWarm : Inst := (exWorld.inst? "i").getD exInst8
 
